@@ -376,8 +376,8 @@ def run_shard(spec, acc):
         acc.count("spellings_that_are_other_hardware", sum(1 for v_ in fresh_by_key.values() if len(v_) > 1))
         irng = random.Random("C18/interrupted/%s/%s" % (spec["seed"], spec["perm"]))
         plain = [m_ for m_ in models if m_ not in variants]
-        for mdl in irng.sample(plain, min(len(plain), 40)):
-            check_interrupted(mdl, irng.choice([".rul", ".order", ".deploy"]), irng.choice(["_read_escaped_rul", "_render_rul"]), acc,
+        for mdl in irng.sample(plain, min(len(plain), 60)):
+            check_interrupted(mdl, irng.choice([".rul", ".order", ".deploy"]), irng.choice(["_read_escaped_rul", "_render_rul", "open", "mako_render"]), acc,
                               before=irng.choice([None, irng.choice(plain)]))
         return
     if spec["mode"] == "xproc":
@@ -446,22 +446,48 @@ def check_interrupted(mdl, which, where, acc, before=None):
     prov = DefaultRulebookProvider()
     if before:
         prov.get_rulebook(HardwareView(before, ""))
-    real = getattr(prov, where)
+    import annet.rulebook as RBM
     fired = []
+    if where in ("open", "mako_render"):
+        # faults below the provider's own methods: the file cannot be opened / the template engine raises, seen from inside them
+        import builtins
+        real = builtins.open if where == "open" else RBM.mako_render
+        seen_texts = []
 
-    def failing(name, *a, **kw):
-        if name.endswith(which) and not fired:
-            fired.append(name)
-            raise InjectedFault("injected: %s cannot be read now" % name)
-        return real(name, *a, **kw)
-    setattr(prov, where, failing)
+        def failing(first, *a, **kw):
+            if not fired:
+                if where == "open" and str(first).endswith(which):
+                    fired.append(first)
+                    raise InjectedFault("injected: %s cannot be read now" % first)
+                if where == "mako_render":
+                    seen_texts.append(first)
+                    if len(seen_texts) == [".rul", ".order", ".deploy"].index(which) + 1:
+                        fired.append(len(seen_texts))
+                        raise InjectedFault("injected: the template engine fails now")
+            return real(first, *a, **kw)
+        holder, attr = RBM, where
+    else:
+        real = getattr(prov, where)
+
+        def failing(name, *a, **kw):
+            if name.endswith(which) and not fired:
+                fired.append(name)
+                raise InjectedFault("injected: %s cannot be read now" % name)
+            return real(name, *a, **kw)
+        holder, attr = prov, where
+    had = attr in vars(holder)
+    old_attr = vars(holder).get(attr)
+    setattr(holder, attr, failing)
     try:
         prov.get_rulebook(hw)
         raised = False
     except InjectedFault:
         raised = True
     finally:
-        delattr(prov, where)
+        if had:
+            setattr(holder, attr, old_attr)
+        else:
+            delattr(holder, attr)
     if not fired:
         acc.count("interrupted_loads_that_never_reached_the_fault")
         return
